@@ -105,12 +105,24 @@ Print Assumptions C07_generated_guards.
    timer is registered afterwards and runs (finding C07-b, corpus/C07/cancel_queued_add.case); C07_cancel_stops therefore carries the
    hypothesis "the id is in activeTimers_" (the add has been processed). *)
 Definition lost_cancel_ops : list op :=
-  [Cb (CFNew 2000 0 10); Cb (CFEnq 10); Cb (CCancel 10 1); RunPending; Cb (CTick 1500); Fire []].
+  [Cb (CFNew 2000 (-1) 10); Cb (CFEnq 10); Cb (CCancel 10 1); RunPending; Cb (CTick 1500); Fire []].
 Theorem C07_cancel_before_queued_add_refuted :
   exists ops st evs t, run (init 1000) ops = Ok (st, evs) /\
-    In (Cb (CCancel 10 1)) ops /\ In (EAdd 1 10 2000 0) evs /\ In (ERun 1 2000 2500 t) evs.
+    In (Cb (CCancel 10 1)) ops /\ In (EAdd 1 10 2000 (-1)) evs /\ In (ERun 1 2000 2500 t) evs.
 Proof. exists lost_cancel_ops. vm_compute. do 3 eexists. split; [reflexivity|]. intuition. Qed.
 Print Assumptions C07_cancel_before_queued_add_refuted.
+
+(* Another boundary of C07_foreign_add_then_cancel, an artefact of the micro-step model rather than of the API:
+   a cancel of the id queued BEFORE the add's hand-off (the id would have to leak out of addTimer between
+   `new Timer` and `queueInLoop`; addTimer returns it only afterwards) runs first, finds nothing, and the timer is
+   registered and runs.  FIFO protects add-then-cancel exactly when the hand-off is queued first. *)
+Definition early_cancel_ops : list op :=
+  [Cb (CFNew 2000 (-1) 10); Cb (CFCancel 10 1); Cb (CFEnq 10); RunPending; Cb (CTick 1500); Fire []].
+Theorem C07_cancel_before_handoff_refuted :
+  exists ops st evs t, run (init 1000) ops = Ok (st, evs) /\
+    In (Cb (CFCancel 10 1)) ops /\ In (EAdd 1 10 2000 (-1)) evs /\ In (ERun 1 2000 2500 t) evs.
+Proof. exists early_cancel_ops. vm_compute. do 3 eexists. split; [reflexivity|]. intuition. Qed.
+Print Assumptions C07_cancel_before_handoff_refuted.
 
 (* Cancelling an id that names no live Timer object -- it already ran, was already cancelled, or is
    the default (NULL, 0) -- is the identity on the whole state and emits nothing, even if the
@@ -161,10 +173,10 @@ Print Assumptions C07_current_tree.
 
 (* non-vacuity: a stale id whose address has been reused by a live timer; the hypothesis of
    C07_stale_cancel_noop holds and the live timer (sequence 2, same address) still runs *)
-Definition reuse_ops : list op := [Cb (CAdd 2000 0 10); Cb (CCancel 10 1); Cb (CAdd 2100 0 10)].
+Definition reuse_ops : list op := [Cb (CAdd 2000 (-1) 10); Cb (CCancel 10 1); Cb (CAdd 2100 (-1) 10)].
 Example C07_stale_reuse_nonvacuous :
   match run (init 1000) reuse_ops with
-  | Ok (st, _) => hget 10 (heap st) = Some (mkT 2 2100 0) /\
+  | Ok (st, _) => hget 10 (heap st) = Some (mkT 2 2100 (-1)) /\
                   step st (Cb (CCancel 10 1)) = Ok (st, []) /\
                   match run st [Cb (CCancel 10 1); Cb (CTick 1100); Fire []] with
                   | Ok (_, evs) => evs = [ERun 2 2100 2100 2100]
@@ -210,7 +222,7 @@ Proof. vm_compute. auto 10. Qed.
 (* non-vacuity of C07_foreign_add_then_cancel: add and cancel of the same id queued by a foreign thread,
    another thread's add in between; after doPendingFunctors the timer is gone and the other one runs *)
 Example C07_add_then_cancel_nonvacuous :
-  match run (init 1000) [Cb (CFNew 2000 500 10); Cb (CFEnq 10); Cb (CFAdd 2100 0 20); Cb (CFCancel 10 1)] with
+  match run (init 1000) [Cb (CFNew 2000 500 10); Cb (CFEnq 10); Cb (CFAdd 2100 (-1) 20); Cb (CFCancel 10 1)] with
   | Ok (st, _) => pending st = [] ++ PAdd 10 :: [PAdd 20; PCancel 10 1] /\ hget 10 (heap st) = Some (mkT 1 2000 500) /\
       match run st [RunPending; Cb (CTick 5000); Fire []] with Ok (st2, ev2) => rlog ev2 = [(2, 2100, 6000)] | _ => False end
   | _ => False end.
